@@ -2,6 +2,7 @@ package checks
 
 import (
 	"fmt"
+	"fortio.org/log"
 	"os"
 	"path/filepath"
 	"sort"
@@ -58,7 +59,7 @@ func c08One(src []byte, lineMode bool, kind string) *core.Viol {
 		return mk("missing-child: "+bad[0], "tree returned without error has a missing child: "+trunc(dump, 300))
 	}
 	for _, m := range []struct {
-		name       string
+		name         string
 		compact, all bool
 	}{{"normal", false, false}, {"compact", true, false}, {"allparens", true, true}, {"allparens-long", false, true}} {
 		if _, pan := printNode(r.prog, m.compact, m.all); pan != "" {
@@ -421,14 +422,34 @@ func runC08(c *core.Ctx) {
 		}
 		bounds = append(bounds, fmt.Sprintf("%d short erroneous programs x every token gap x %d white-space / comment runs of 1..5000 bytes", len(progs), len(gaps)))
 	}
+	if ok && !c.Expired() {
+		// the log level is configuration: at debug level the lexer and parser format trace messages about what they
+		// hold (tokens, partial trees) - on the error paths too
+		prev := log.GetLogLevel()
+		log.SetLogLevelQuiet(log.Debug)
+		n := 0
+		for _, tpl := range c08Templates {
+			toks := strings.Split(tpl, " ")
+			c08Mutants1(toks, c08Tokens, func(m []string) {
+				s := c08Render(m)
+				if c.Mine("dbg", s) {
+					c08Do(c, "dbg", []byte(s))
+					n++
+				}
+			})
+		}
+		c08TokenFamily(c, "dbgtok", c08Tokens, 2, []string{" "})
+		log.SetLogLevelQuiet(prev)
+		bounds = append(bounds, fmt.Sprintf("at debug log level: every single token mutation of the %d templates and all strings of <=2 tokens", len(c08Templates)))
+	}
 	c.P.Bound = strings.Join(bounds, "; ") + "; file and line mode"
 }
 
 func init() {
 	core.Register(&core.Check{
-		ID:    "C08",
-		Level: "exploration",
-		Rule: "byte strings enumerated exhaustively: all strings of <=L tokens over the full token alphabet (one spelling per lexable token kind plus unterminated string/comment, newline, ILLEGAL, NUL, 0xFF), joined by a space and by nothing; <=L+1 tokens over a class-reduced alphabet; all byte strings <=2 (3) over all 256 values; <=4 (5) over the significant byte set; every truncation and single-byte mutation of the shipped examples; each in file and line mode. Oracle under recover: no panic; errors, continuation or a tree; a tree without error/continuation has no missing child (own canonical dump) and prints in normal, compact and all-parens modes without panicking. Non-trivial = non-empty input; distinct by input bytes.",
+		ID:          "C08",
+		Level:       "exploration",
+		Rule:        "byte strings enumerated exhaustively: all strings of <=L tokens over the full token alphabet (one spelling per lexable token kind plus unterminated string/comment, newline, ILLEGAL, NUL, 0xFF), joined by a space and by nothing; <=L+1 tokens over a class-reduced alphabet; all byte strings <=2 (3) over all 256 values; <=4 (5) over the significant byte set; every truncation and single-byte mutation of the shipped examples; each in file and line mode. Oracle under recover: no panic; errors, continuation or a tree; a tree without error/continuation has no missing child (own canonical dump) and prints in normal, compact and all-parens modes without panicking. Non-trivial = non-empty input; distinct by input bytes.",
 		Assume:      []string{"a hang is detected by a watchdog (30 s without progress)"},
 		QuickCap:    100 * time.Second,
 		ThoroughCap: 20 * time.Minute,
